@@ -52,7 +52,7 @@ def geom_cases(shard, limit):
         elif k == "S":
             cur["S"].append(t[1:10])
         elif k == "T":
-            cur["T"] = t[1:5]
+            cur.setdefault("T", []).append(t[1:5])
         elif k == "L":
             cur["L"] = t[1:5]
         elif k in ("P", "M", "J"):
@@ -85,7 +85,7 @@ def run_geom(prop, shard, limit, ocaml_verdicts):
     body = [HEAD]
     for i, c in enumerate(cases):
         syms = "[" + "; ".join(tf9(s) for s in c["S"]) + "]"
-        site = "(@mkSite NumF %s)" % " ".join(flit(h) for h in c["T"])
+        site = "[" + "; ".join("@mkSite NumF %s" % " ".join(flit(h) for h in t) for t in c["T"]) + "]"
         cell = "(@mkCell NumF %s)" % " ".join(flit(h) for h in c["L"])
         if c["kind"] == "P":
             shape = "(@Poly NumF [" + "; ".join("@mkSeg NumF %s" % " ".join(flit(h) for h in it[:4]) for it in c["I"]) + "])"
